@@ -16,7 +16,9 @@ RULE = ("bounded-exhaustive: all part names over an 11-segment alphabet up to de
         "all references of <=4 segments over alphabet+{'.','..'} (relative and root-absolute) against "
         "every base directory of depth<=2; Hypothesis-generated names over a wider segment grammar; "
         "relationship collections from a generated source to 1-4 generated targets, serialised three times with "
-        "targets renamed in between, each written Target resolved (RFC 3986) against the source directory. "
+        "targets renamed in between, each written Target resolved (RFC 3986) against the source directory; "
+        "two-part packages whose relationship Target is a generated reference (dot segments, root-absolute), opened "
+        "with OpcPackage.open and compared with the RFC 3986 resolution. "
         "Non-trivial: P and Q lie in different directories, in sibling-prefix directories "
         "(/a/slides vs /a/slidesX), or one is root-level; dot-segment references count when they "
         "contain '.' or '..' or are root-absolute. All enumerated cases are distinct by construction.")
@@ -242,6 +244,49 @@ def check_rels(case):
                                 "named %r" % (pn, live[rid][0], live[rid][1], want))
 
 
+def check_load(case):
+    """case = (source part name P, reference r): a package in which P's relationship item holds Target=r and the
+    part that r names under RFC 3986 exists; after opening, P is related to exactly that part."""
+    import io
+    import zipfile
+
+    from vlib import opcmodel as OM
+
+    pn, ref = case
+    qn = rfc3986_resolve(ref_basedir(pn), ref)
+    low = (pn.lower(), qn.lower())
+    if (qn == pn or qn.endswith("/") or "/_rels/" in qn + "/" or "/_rels/" in pn + "/" or low[0] == low[1]
+            or "[content_types].xml" in low[0] + low[1] or qn.startswith(pn + "/") or pn.startswith(qn + "/")):
+        return False   # not a package two distinct parts can form
+    rt = "http://schemas.openxmlformats.org/officeDocument/2006/relationships/"
+    members = {
+        "/[Content_Types].xml": OM.build_content_types([(pn, "application/x-verif-p", False, False),
+                                                         (qn, "application/x-verif-q", False, False)]),
+        "/_rels/.rels": OM.build_rels([("rId1", rt + "officeDocument", "Internal", pn[1:])]),
+        pn: b"P",
+        ref_rels(pn): OM.build_rels([("rId7", rt + "image", "Internal", ref)]),
+        qn: b"Q",
+    }
+    buf = io.BytesIO()
+    with zipfile.ZipFile(buf, "w") as z:
+        for name, blob in members.items():
+            z.writestr(name[1:], blob)
+    buf.seek(0)
+    from pptx.opc.package import OpcPackage
+
+    try:
+        pkg = OpcPackage.open(buf)
+        src = pkg.part_related_by(rt + "officeDocument")
+        got = sorted((rel.rId, str(rel.target_partname)) for rel in src.rels.values())
+        parts = sorted(str(p.partname) for p in pkg.iter_parts())
+    except Exception as e:
+        raise Violation("C19:load-raises", "package with part %r related by Target=%r to %r: %r" % (pn, ref, qn, e))
+    if str(src.partname) != pn or got != [("rId7", qn)] or parts != sorted([pn, qn]):
+        raise Violation("C19:load-target", "part %r with Target=%r (RFC 3986: %r): loaded as %r with relationships %r; "
+                        "parts %r" % (pn, ref, qn, str(src.partname), got, parts))
+    return True
+
+
 def check_reject(name):
     from pptx.opc.packuri import PackURI
 
@@ -397,6 +442,16 @@ def run_job(job, seed, tier, rec, known):
                         seed=seed + 11, max_examples=job["n"], rec=rec, known=known)
         for x in f4:
             x["case"] = ["rels"] + list(x["case"])
+        def fn5(case):
+            ok = check_load(case)
+            if ok:
+                rec.note(["load"] + list(case), True)
+            else:
+                rec.discarded += 1
+
+        f5 = hyp_search(fn5, st.tuples(name, ref), seed=seed + 13, max_examples=job["n"], rec=rec, known=known)
+        for x in f5:
+            x["case"] = ["load"] + list(x["case"])
         nonslash = st.text(min_size=0, max_size=8).filter(lambda s: not s.startswith("/"))
 
         def fn3(s):
@@ -406,7 +461,7 @@ def run_job(job, seed, tier, rec, known):
         f3 = hyp_search(fn3, nonslash, seed=seed + 9, max_examples=300, rec=rec, known=known)
         for x in f3:
             x["case"] = ["reject", x["case"]]
-        return f + f2 + f3 + f4
+        return f + f2 + f3 + f4 + f5
     raise ValueError(k)
 
 
@@ -421,6 +476,8 @@ def replay(case):
         return collect(check_resolve, (case[1], case[2]))
     if kind == "reject":
         return collect(check_reject, case[1])
+    if kind == "load":
+        return collect(check_load, (case[1], case[2]))
     if kind == "rels":
         return collect(check_rels, (case[1], case[2]))
     raise ValueError(kind)
